@@ -13,6 +13,7 @@ EXTENDS Elements, Names, TLC
 
 KeepFalsyDefault      == TRUE   \* _parse_composition: `default or element.default`
 SingleTypeKeepsDefault == TRUE  \* _parse_multi_typed, one-element type list
+NothingDefaultWrapped == TRUE   \* _parse_composition: AllOf(Nothing(), default=d)
 
 CompKws == {"anyOf", "oneOf", "allOf", "not"}
 
@@ -140,6 +141,8 @@ ParseComposition(S, P) ==
   IN IF IsErr(errs) THEN errs
      ELSE IF element.cls = "Object"
           THEN MkComp("AllOf", <<element>>, IF hasD THEN [default |-> P.default] ELSE EmptyKw)
+     ELSE IF NothingDefaultWrapped /\ element.cls = "Nothing" /\ hasD
+          THEN MkComp("AllOf", <<element>>, [default |-> P.default])
      ELSE IF hasD /\ (KeepFalsyDefault \/ Truthy(P.default))
           THEN [element EXCEPT !.kw = [k \in DOMAIN element.kw \cup {"default"} |->
                                          IF k = "default" THEN P.default ELSE element.kw[k]]]
